@@ -63,30 +63,32 @@ def finishAbort (fuel : Nat) (target : Nat) (s : S) : Option S :=
 def openCalls (s : S) : Nat := (if s.aPc = 0 then 0 else 1) + (if s.aSaved = 0 then 0 else 1)
 
 /-- `depth` = number of abort calls the trace has open -/
-def replayToks (s : S) (k depth : Nat) : Toks → Except (Nat × String) S
+def replayToks (s : S) (k depth : Nat) (early : Nat) : Toks → Except (Nat × String) S
   | [] => .ok s
   | t :: rest =>
-    if t == "aFin" then
-      -- the model may already have returned from this call (early return inside an action)
-      if openCalls s < depth then replayToks s (k + 1) (depth - 1) rest
-      else match finishAbort 8 (s.nRet + 1) s with
-        | some s' => replayToks s' (k + 1) (depth - 1) rest
+    if t == "aFin" || t == "aKI" then
+      -- `early`: calls still open in the trace that the model had already returned from when a handler interrupted them
+      -- (they are below the innermost call); once only those are left, their return needs no model step
+      if depth ≤ early then replayToks s (k + 1) (depth - 1) (early - 1) rest
+      -- the model may already have returned from the innermost call (early return inside an action)
+      else if openCalls s < depth - early then replayToks s (k + 1) (depth - 1) early rest
+      else if t == "aFin" then
+        match finishAbort 8 (s.nRet + 1) s with
+        | some s' => replayToks s' (k + 1) (depth - 1) early rest
         | none => .error (k, t)
-    else if t == "aKI" then
-      if openCalls s < depth then replayToks s (k + 1) (depth - 1) rest
       else match step s .aKilled with
-        | some s' => replayToks s' (k + 1) (depth - 1) rest
+        | some s' => replayToks s' (k + 1) (depth - 1) early rest
         | none => .error (k, t)
     else match parseAct t with
       | none => .error (k, "unknown:" ++ t)
       | some a => match step s a with
-        | some s' => replayToks s' (k + 1) (if t == "aBegin" || t == "aNest" then depth + 1 else depth) rest
+        | some s' => replayToks s' (k + 1) (if t == "aBegin" || t == "aNest" then depth + 1 else depth) early rest
         | none =>
           -- a handler that interrupts a call which has already done its last modelled action (it found the teardown
           -- lock taken / no executor and is on its way out): for the model that call has returned, this one begins
           if t == "aNest" && s.aPc == 0 then
             match step s .aBegin with
-            | some s' => replayToks s' (k + 1) (depth + 1) rest
+            | some s' => replayToks s' (k + 1) (depth + 1) (early + 1) rest
             | none => .error (k, t)
           else .error (k, t)
 
@@ -196,7 +198,7 @@ def handle (ts : Toks) : String :=
        | none => []) ++
       (if kiOutside then facts.filter (· != "no-record-handed-to-callbacks") else facts)
     -- model
-    match replayToks {} 0 0 sync with
+    match replayToks {} 0 0 0 sync with
     | .error (k, t) =>
       reply false fails.isEmpty (",".intercalate (fails ++ ["model-rejects-action-" ++ toString k ++ ":" ++ t ++ ":after:" ++ " ".intercalate ((sync.take k).drop (k - 6))]))
     | .ok s =>
